@@ -156,7 +156,7 @@ package gts
 //@ func Join(locs ...Location) (out Location)
 //@   prop C02 C04 C06
 //@   trusted LocationList is a pointer-linked list of unbounded length; the general reduction (a fold of the Push merge table) is outside the verified subset. Join@two is proved.
-//@   requires len(locs) >= 1
+//@   requires len(locs) >= 1 && (forall k in 0..len(locs): !isnil(locs[k]))
 //@   ensures !isnil(out)
 //@   assigns nothing
 
@@ -165,17 +165,25 @@ package gts
 //@   ensures fresh(list)
 //@   ensures flat: forall k in 0..len(list): !is(list[k], Ordered)
 //@   ensures copy: (forall k in 0..len(locs): !is(locs[k], Ordered)) ==> len(list) == len(locs) && (forall k in 0..len(locs): list[k] == locs[k])
+//@   ensures nonempty: forall k in 0..len(locs): !is(locs[k], Ordered) ==> len(list) >= 1
 //@   assigns nothing
+//@   loop 1: invariant forall k in 0..i: !is(locs[k], Ordered) ==> len(list) >= 1
 //@   loop 1: invariant fresh(list) && (forall k in 0..len(list): !is(list[k], Ordered))
 //@   loop 1: invariant (forall k in 0..i: !is(locs[k], Ordered)) ==> len(list) == i && (forall k in 0..i: list[k] == locs[k])
 //@   loop 1: decreases len(locs) - i
 
 //@ func Order(locs ...Location) (out Location)
-//@   prop C02 C06
+//@   prop C02 C06 C05
+//@   requires len(locs) >= 1
+//@   panics_if forall k in 0..len(locs): is(locs[k], Ordered)
+//@   assigns nothing
+
+// Order of parts none of which is itself an order: the parts are kept as they are.
+//@ func Order@flat(locs ...Location) (out Location)
+//@   prop C02 C06 C05
 //@   requires len(locs) >= 1 && (forall k in 0..len(locs): !is(locs[k], Ordered))
 //@   ensures len(locs) == 1 ==> out == locs[0]
 //@   ensures len(locs) >= 2 ==> is(out, Ordered) && len(out.(Ordered)) == len(locs) && fresh(out.(Ordered)) && (forall k in 0..len(locs): out.(Ordered)[k] == locs[k])
-//@   assigns nothing
 
 // ---------------------------------------------------------------------------
 // location.go: Reverse (C05) and Normalize (C04), leaf kinds
@@ -612,8 +620,8 @@ package gts
 //@   ensures !isnil(out)
 //@   assigns nothing
 //@ func (l Location) Reverse(length int) (out Location)
-//@   trusted interface contract: purity is proved for the leaf kinds; composites allocate fresh part lists
-//@   ensures !isnil(out)
+//@   trusted interface contract: purity is proved for the leaf kinds; composites allocate fresh part lists; the result is a function of the arguments
+//@   ensures !isnil(out) && out == revL(l, length)
 //@   assigns nothing
 //@ func (l Location) Normalize(length int) (out Location)
 //@   trusted interface contract: purity is proved for the leaf kinds; composites allocate fresh part lists
@@ -970,3 +978,42 @@ func lemmaEmbedDelete(host Sequence, i int, guest Sequence) Sequence {
 func lemmaSliceConcat(seq Sequence, c int) Sequence {
 	return Concat(Slice(seq, 0, c), Slice(seq, c, Len(seq)))
 }
+
+// ---------------------------------------------------------------------------
+// location.go: Reverse of multi-part locations (C05): every part is mirrored and the parts
+// appear in mirrored order; no part is lost (Join / Order receive no nil part).
+
+// revL(l, length): the value l.Reverse(length) as a function of its arguments.
+//@ spec func revL(l Location, length int) Location uninterpreted
+
+//@ func (joined Joined) Reverse(length int) (out Location)
+//@   prop C05
+//@   requires len(joined) >= 1 && (forall k in 0..len(joined): !isnil(joined[k]))
+//@   ghost M(k int) int
+//@   ensures !isnil(out)
+//@   assigns nothing
+//@   loop 1: invariant 0 <= l && l + r == len(joined) - 1 && l <= r + 2 && fresh(ll) && len(ll) == len(joined)
+//@   loop 1: invariant forall k in 0..l: ll[k] == revL(joined[len(joined)-1-k], length) && !isnil(ll[k])
+//@   loop 1: invariant forall k in r+1..len(ll): ll[k] == revL(joined[len(joined)-1-k], length) && !isnil(ll[k])
+//@   loop 1: decreases r - l + 1
+
+//@ func (ordered Ordered) Reverse(length int) (out Location)
+//@   prop C05
+//@   requires len(ordered) >= 1 && (forall k in 0..len(ordered): isLeaf(ordered[k]) && leafDom(ordered[k], length))
+//@   ensures single: len(ordered) == 1 ==> out == revL(ordered[0], length)
+//@   ensures mirrored: len(ordered) >= 2 ==> is(out, Ordered) && len(out.(Ordered)) == len(ordered) &&
+//@      (forall k in 0..len(ordered): out.(Ordered)[k] == revL(ordered[len(ordered)-1-k], length))
+//@   assigns nothing
+//@   loop 1: invariant 0 <= l && l + r == len(ordered) - 1 && l <= r + 2 && fresh(ll) && len(ll) == len(ordered)
+//@   loop 1: invariant forall k in 0..l: ll[k] == revL(ordered[len(ordered)-1-k], length) && !is(ll[k], Ordered)
+//@   loop 1: invariant forall k in r+1..len(ll): ll[k] == revL(ordered[len(ordered)-1-k], length) && !is(ll[k], Ordered)
+//@   loop 1: decreases r - l + 1
+
+//@ spec func isLeaf(l Location) bool = is(l, Point) || is(l, Between) || is(l, Ranged) || is(l, Ambiguous)
+// leafDom(l, length): a leaf location inside [0, length] (the domain of the leaf Reverse contracts).
+//@ spec func leafDom(l Location, length int) bool =
+//@   coord(length) &&
+//@   (is(l, Point) ==> 0 <= int(l.(Point)) && int(l.(Point)) < length) &&
+//@   (is(l, Between) ==> 0 <= int(l.(Between)) && int(l.(Between)) <= length) &&
+//@   (is(l, Ranged) ==> 0 <= l.(Ranged).Start && l.(Ranged).Start < l.(Ranged).End && l.(Ranged).End <= length) &&
+//@   (is(l, Ambiguous) ==> 0 <= l.(Ambiguous).Start && l.(Ambiguous).Start < l.(Ambiguous).End && l.(Ambiguous).End <= length)
